@@ -601,7 +601,7 @@ def split_veltkamp(
 
     params = _get_parameters(ctx, dtype, x, _split_veltkamp_parameters)
     if C is None:
-        C = params["N"]
+        C = params["C"]
     if scale:
         invN = params["invN"]
         N = params["N"]
